@@ -94,7 +94,7 @@ def hyp_cases(draw, tier):
     if flavour != "str":
         kinds = [k for k in kinds if k != "rename"] + ["set_data"]
     case = draw(gen_ops.histories(typed=draw(st.sampled_from([False, False, False, True])), max_ops=30 if tier == "quick" else 60,
-                                  kinds=kinds, fresh=True, explicit_ids=True, max_nodes=12))
+                                  kinds=kinds, fresh=True, explicit_ids=True, max_nodes=12, big=(20, 66)))
     case["flavour"] = flavour
     return case
 
